@@ -92,7 +92,7 @@ def readOutgoingHeader (e : Env) : Rd (Nat × Nat × Bool) := fun bs =>
   match readBits e.magicBits bs with
   | .fail r => .fail r
   | .ok m rest =>
-    if e.magicBits != 0 && bitsToNat m != e.magic % 2 ^ e.magicBits then .fail rest else
+    if e.magicBits != 0 && bitsToNat m != e.magic then .fail rest else
     match readBits 2 rest with
     | .fail r => .fail r
     | .ok s rest =>
@@ -256,7 +256,7 @@ def Endpoint.handshakeIncoming {T} (tm : TimeOps T) (e : Env) (rng : Rng) (ep : 
         let c := if !ch.restarted then
             { (ep.c.seqInit (seqFromCookie hs.cookie 0) (seqFromCookie hs.cookie 1)) with cookie := hs.cookie }
           else ep.c
-        let c := { c with lastRecvMs := e.nowMs, connected := true }
+        let c := { c with lastRecvMs := e.nowMs, lastSendMs := e.nowMs, connected := true }
         let c := c.emit (.connect ch.restarted)
         ({ ep with c := c, chal := some { ch with state := stInit, restarted := false } }, rng, 0)
       else (ep, rng, 0)
